@@ -44,13 +44,13 @@ REQUIRED = {"stratum:table": 60, "stratum:reader": 60, "stratum:plot": 40, "read
 
 
 @st.composite
-def _table_case(draw, maxpts):
+def _table_case(draw, maxpts, xmaps=((0.0, 1.0),)):
     t = draw(gen.table_form("tabq", draw(st.sampled_from([6, 12, maxpts]))))
     lo, hi = t["x"][0], t["x"][-1]
     qs = draw(st.lists(gen.fl(lo - 1.0, hi + 1.0), min_size=3, max_size=8))
     # the x axis in other units: the same table with every x times a power of ten
     # ... or shifted far from the origin with a fine spacing (1000.00, 1000.01, ...): x' = a + b*x
-    a, b = draw(st.sampled_from([(0.0, 1e-10), (0.0, 1.0), (1000.0, 0.01), (0.0, 1.0), (0.0, 1e-3), (0.0, 1e4), (0.0, 1.0)]))
+    a, b = draw(st.sampled_from(list(xmaps)))
     if (a, b) != (0.0, 1.0):
         xs = [a + x * b for x in t["x"]]
         if all(p < q for p, q in zip(xs, xs[1:])):
@@ -144,7 +144,10 @@ def strategy(tier):
 
 
 def strata(tier):
-    return [("table", _table_case(40 if tier == "quick" else 200), 4), ("reader", _reader_case(), 4), ("plot", _plot_case(), 2)]
+    n = 40 if tier == "quick" else 200
+    return [("table", _table_case(n), 2.4), ("table:x_1e-10", _table_case(n, [(0.0, 1e-10)]), 0.5),
+            ("table:x_far_from_origin", _table_case(n, [(1000.0, 0.01), (1000.0, 0.01), (5000.0, 0.001)]), 0.5),
+            ("table:x_other_units", _table_case(n, [(0.0, 1e-3), (0.0, 1e4)]), 0.6), ("reader", _reader_case(), 4), ("plot", _plot_case(), 2)]
 
 
 def budget(tier):
